@@ -149,7 +149,8 @@ def gen_history(rng, tier, collide_use=False):
                 # after a read the continuation amplitude is what the library says
                 gl = tw.on.grad_library
                 ev = tw.on.block_events[ids2[-1]]
-                prev_last = [float(gl.data[ev[2 + c]][5]) if ev[2 + c] and gl.type[ev[2 + c]] == 'g' else 0.0 for c in range(3)]
+                prev_last = [float(gl.data[ev[2 + c]][5]) if ev[2 + c] and gl.type.get(ev[2 + c]) == 'g' and len(gl.data.get(ev[2 + c], ())) > 5
+                             else 0.0 for c in range(3)]
     return tw, kinds
 
 
@@ -284,6 +285,10 @@ def content_matches(b, evs, seq):
         for f in ('delay', 'freq_offset', 'phase_offset'):
             if not close(getattr(b.rf, f), getattr(w, f)):
                 return 'rf.' + f
+        if len(b.rf.t) != len(w.t) or float(np.max(np.abs(np.asarray(b.rf.t) - np.asarray(w.t)))) > 1e-9:
+            return 'rf.t (time shape)'
+        if not close(b.rf.shape_dur, w.shape_dur, rel=1e-9, absol=1e-9):
+            return 'rf.shape_dur'
         if hasattr(w, 'use') and getattr(b.rf, 'use', None) not in (w.use,):
             return 'rf.use'
     if (b.adc is None) != (want['adc'] is None):
